@@ -34,14 +34,6 @@ func vwReply(req []byte) []byte {
 	return vwSerialize(d)
 }
 
-func be64w(b []byte, o int) uint64 {
-	var v uint64
-	for i := 0; i < 8; i++ {
-		v = v<<8 | uint64(b[o+i])
-	}
-	return v
-}
-
 // c03Run: request along the valid path, reply along the reversed path.
 func c03Run(twin bool) {
 	w, raw := vwRequest()
